@@ -177,10 +177,29 @@ def run(c):
     if hb is None:
         return c.finish()
 
-    def observe(n, seed, first=0, noreset=False, tag="main"):
+    # the real cmd/ruleguard binary, for the end-to-end scenarios
+    rgbin = os.path.join(c.work, "ruleguard-bin")
+
+    def build_cli():
+        rc, log = c.sh(["go", "build", "-modfile=" + c.harness_modfile(), "-o", rgbin, "github.com/quasilyte/go-ruleguard/cmd/ruleguard"],
+                       cwd=os.path.join(c.verif, "harness"), timeout=900)
+        return rc, log
+    rc_cli, log_cli = c._locked_build("harness", build_cli)
+    if rc_cli != 0:
+        c.obligation("build:cmd/ruleguard", False, log_cli[-2000:])
+        rgbin = None
+    e2e_results = []
+
+    def observe(n, seed, first=0, noreset=False, tag="main", e2e=0):
         tmp = os.path.join(c.work, "tmp-%s-%d-%d" % (tag, seed, first))
         os.makedirs(tmp, exist_ok=True)
         args = ["-n", str(n), "-seed", str(seed), "-first", str(first), "-tmp", tmp]
+        if e2e and rgbin:
+            args += ["-e2e", rgbin, "-e2en", str(e2e), "-fakedir", os.path.join(c.verif, "harness", "fake"),
+                     "-reposum", os.path.join(c.repo, "go.sum")]
+            n_expected_extra = e2e
+        else:
+            n_expected_extra = 0
         if noreset:
             args.append("-noreset")
         rc, out = c.run_harness(hb, args, timeout=900)
@@ -189,9 +208,13 @@ def run(c):
             line = line.strip()
             if line.startswith("{"):
                 try:
-                    scs.append(json.loads(line))
+                    o = json.loads(line)
                 except ValueError:
-                    pass
+                    continue
+                if o.get("kind") == "e2e":
+                    e2e_results.append(o)
+                else:
+                    scs.append(o)
         if rc != 0 or len(scs) != n:
             c.obligation("harness-run:c19", False, out[-2000:])
         return scs
@@ -341,15 +364,35 @@ def run(c):
         c.coverage["diagnostics_compared"] += sum(len(st["diags"]) for sc in scs for st in sc["steps"])
         c.coverage["model_vs_impl"] = "regenerated" if (gen_ok or gen_usable) else "specification only (regenerated model unavailable)"
 
+    def check_e2e():
+        for r in e2e_results:
+            c.count()
+            inp = {"e2e": r["id"], "flags": r["flags"], "args": r["args"], "seed": c.seed}
+            if r.get("err"):
+                c.fail("corr", "end-to-end scenario could not be run", input=inp, observed=r["err"])
+                continue
+            if r["expected"] != r["observed"]:
+                missing = [x for x in r["expected"] if x not in r["observed"]][:5]
+                extra = [x for x in r["observed"] if x not in r["expected"]][:5]
+                c.fail("oracle", "the cmd/ruleguard binary prints other diagnostics than the analyzer produces under the same flags",
+                       input=inp, expected={"missing_from_cli_output": missing}, observed={"only_in_cli_output": extra, "stderr": r["stderr"][:500]})
+            elif r["expected"]:
+                c.nontriv(("e2e", len(r["expected"]), enable_shape(r["flags"]["enable"])))
+        c.coverage["e2e_cli_runs"] = c.coverage.get("e2e_cli_runs", 0) + len(e2e_results)
+        c.coverage["e2e_cli_diagnostics"] = c.coverage.get("e2e_cli_diagnostics", 0) + sum(len(r["observed"]) for r in e2e_results)
+        del e2e_results[:]
+
     n_main = 60 if not thorough else 900
-    scs = observe(n_main, c.seed)
+    scs = observe(n_main, c.seed, e2e=(4 if not thorough else 40))
     # pristine processes: the very first pass of a process, no reset hook involved
     for k in range(4 if not thorough else 24):
         scs += observe(1, c.seed, first=1000 + k, noreset=True, tag="fresh")
     compare(scs, "main")
+    check_e2e()
 
     def search():
-        compare(observe(240, c.seed + 17, tag="search"), "search")
+        compare(observe(240, c.seed + 17, tag="search", e2e=20), "search")
+        check_e2e()
         # an unlocked access does not change any output: ask the Go race detector for a witness schedule
         hr = c.build_harness("c19", race=True)
         if hr is None:
